@@ -415,6 +415,10 @@ async fn on_connected(
         tokio::select! {
             Some(mux_task_joinset_result) = mux_task_joinset.join_next() => {
                 mux_task_joinset_result.expect("Task panicked (this is a bug)")?;
+                // The task only ends without an error when the server closed the connection.
+                // The multiplexor is dead from here on: reconnect instead of waiting for the
+                // next local request to find that out.
+                return Err(Error::ServerDisconnected);
             }
             Some(sender) = stream_command_rx.recv() => {
                 if let Err(e) = get_send_stream_chan(&mux, sender, failed_stream_request, args.channel_timeout).await {
